@@ -25,6 +25,7 @@ type COp struct {
 	Keys  []int  `json:"keys,omitempty"` // getmany / putmany (no repeats)
 	Ver   int    `json:"ver,omitempty"`  // cas: 0 last version this thread saw for the key, 1 an older one it saw, 2 garbage
 	Exp   bool   `json:"exp,omitempty"`  // write with an expiry far in the future (the second Redis code path)
+	Same  bool   `json:"same,omitempty"` // write the constant value "same" instead of a value unique to this call
 	Yield int    `json:"yield,omitempty"`
 }
 
@@ -92,6 +93,9 @@ func Execute(c CCase, st kvs.Storage) []HOp {
 				}
 				key := Keys[op.Key]
 				val := fmt.Sprintf("t%do%d", ti, oi)
+				if op.Same {
+					val = "same"
+				}
 				var exp *time.Time
 				if op.Exp {
 					e := far
